@@ -479,3 +479,5 @@ func returnedValues(fn *ssa.Function, idx int) []ssa.Value {
 	})
 	return out
 }
+
+func sprintf(format string, a ...interface{}) string { return fmt.Sprintf(format, a...) }
